@@ -216,22 +216,23 @@ def guarded_default_map(trace, max_calls):
 
 @contextlib.contextmanager
 def wall_guard(seconds):
-    """last resort against a spin the other guards do not see (reported as clause 'runaway')"""
+    """last resort against a spin the other guards do not see (reported as clause 'runaway'); measured in
+    CPU seconds of this process so that a loaded machine cannot trip it"""
     import signal
 
     def onalarm(sig, frame):
-        raise Horizon('no return within %d s wall' % seconds)
+        raise Horizon('no return within %d CPU seconds' % seconds)
     try:
-        old = signal.signal(signal.SIGALRM, onalarm)
+        old = signal.signal(signal.SIGVTALRM, onalarm)
     except ValueError:      # not the main thread
         yield
         return
-    signal.setitimer(signal.ITIMER_REAL, seconds, 1.0)
+    signal.setitimer(signal.ITIMER_VIRTUAL, seconds, 1.0)
     try:
         yield
     finally:
-        signal.setitimer(signal.ITIMER_REAL, 0)
-        signal.signal(signal.SIGALRM, old)
+        signal.setitimer(signal.ITIMER_VIRTUAL, 0)
+        signal.signal(signal.SIGVTALRM, old)
 
 
 # ------------------------------------------------------------------ randomness
@@ -362,7 +363,8 @@ def execute(cfg, chooser=None, max_rounds=400):
     kinds = [cfg['nested']]
     # every round of a stepping ensemble costs each live member one iteration and at least one evaluation
     g_, e_ = (lim[0], lim[1]) if lim else (None, None)
-    tr.max_map_calls = cfg.get('max_map_calls', g_ + 10 if g_ is not None else (e_ + 25 if e_ is not None else 400))
+    tr.max_map_calls = cfg.get('max_map_calls', g_ + 10 if g_ is not None else
+                               (e_ + 25 if e_ is not None else default_limits(cfg['nested'], dim, cfg.get('npop', 4))[0] + 10))
     old = sys.stdout
     sys.stdout = io.StringIO()
     try:
@@ -426,7 +428,7 @@ def _class_api(cfg, cost, tr, R, max_rounds):
         s.Solve(cost, step=True)
     elif mode == 'steploop':
         s.SetObjective(cost)
-        for k in range(max_rounds):
+        for k in range(max(max_rounds, tr.max_map_calls + 5)):
             msg = s.Step()
             R.rounds.append((msg, len(tr.calls)))
             if msg:
